@@ -107,6 +107,125 @@ def mentions_call(t, bb):
     return term_mentions(t, lambda x: x[0] == "call" and x[1] == bb)
 
 
+
+# ---------------------------------------------------------------------------------------------------------------
+# Composition analysis shared by the three extractors: "framework extraction F, then deserr::deserialize D on exactly
+# F's document, then wrap; errors of F and D handed on unchanged" - stated on value flow (View.alts), not on a call chain,
+# so that `?` vs `match`, helper functions (expanded), `ready!` vs an explicit match on Poll all read the same.
+STD_OK = ("std::ops::Try::branch", "std::ops::FromResidual::from_residual", "std::pin::Pin::get_mut", "std::pin::Pin::new", "std::pin::Pin::new_unchecked",
+          "std::pin::Pin::as_mut", "std::future::get_context", "std::future::IntoFuture::into_future", "std::convert::From::from", "std::convert::Into::into",
+          "std::result::Result::map", "std::result::Result::map_err", "std::result::Result::and_then", "std::ops::Deref::deref", "std::ops::DerefMut::deref_mut",
+          "std::task::Poll::map", "std::task::Poll::map_ok", "std::task::Poll::map_err", "std::ops::FnOnce::call_once", "std::result::Result::unwrap_or_else",
+          "std::marker::PhantomData", "std::result::Result::ok", "std::result::Result::or_else", "std::mem::drop")
+
+
+def und(rule, v, what, bb=None, detail=""):
+    f = fnd(rule, v, what, bb, detail)
+    f.undecided = True
+    return f
+
+
+def composition(crate, v, rule, is_F, wrapper_suffix, extra_ok=(), f_is_poll=False):
+    """returns (findings, obligations).  is_F(view, bb) recognises the framework extraction call."""
+    fs = []
+    ob = 6
+    views = [v]
+    # closures created here (map / map_err arguments) belong to the extractor
+    for cb in crate.bodies:
+        if cb.kind == "Closure" and cb.root == v.b.root and cb.path != v.b.path and cb.path.startswith(v.b.path):
+            views.append(View(cb))
+    F = [bb for bb, c in v.calls() if is_F(v, bb)]
+    D = [bb for bb, c in v.calls() if cname(v, bb) == "deserialize"]
+    foreign = []
+    unknown = []
+    for x in views:
+        for bb, c in x.calls():
+            nm = cname(x, bb)
+            if c.fn is None:
+                continue   # calling a closure / function value handed around (e.g. Result::map(Self::new))
+            if (x is v and (bb in F or bb in D)) or nm in STD_OK or nm in extra_ok or (nm or "").endswith(wrapper_suffix + "::new") or nm in PLUMBING:
+                continue
+            if c.krate in ("std", "core", "alloc", "futures", "futures_core", "futures_util"):
+                unknown.append((x, bb, nm))
+            elif c.krate == "deserr":
+                unknown.append((x, bb, nm))
+            else:
+                foreign.append((x, bb, nm))
+    for x, bb, nm in foreign:
+        fs.append(fnd(rule, x, "the extractor does something besides extracting, deserialising and wrapping: call of %s" % nm, bb))
+    if len(F) != 1 or len(D) != 1:
+        if not fs:
+            fs.append(und(rule, v, "expected one framework extraction and one deserr::deserialize (found %d / %d): composition not read (undecided)" % (len(F), len(D))))
+        return fs, ob
+    f, d = F[0], D[0]
+    ga = v.callee(d).gargs
+    if len(ga) >= 2 and isinstance(ga[1], int) and crate.types[ga[1]]["s"] != "serde_json::Value":
+        fs.append(fnd(rule, v, "deserialize is not run on serde_json::Value", d))
+
+    def rooted(term, root_bbs, depth=0):
+        """'ok' when term is built from the results of root calls by projections / allowed wrappers only; 'fabricated' when it
+        contains a constant or a value from elsewhere; 'unknown' otherwise"""
+        t_ = strip_refs(term)
+        if depth > 40:
+            return "unknown"
+        k = t_[0]
+        if k == "call":
+            if t_[1] in root_bbs:
+                return "ok"
+            nm = cname(v, t_[1]) if t_[1] < len(v.blocks) and v.blocks[t_[1]]["term"]["k"] == "call" else None
+            if nm in STD_OK or nm in PLUMBING or nm in extra_ok or nm == "actix_web::web::Json::into_inner" or (nm or "").endswith("::into_inner") or \
+                    (nm or "").endswith(wrapper_suffix + "::new"):
+                rs = [rooted(a, root_bbs, depth + 1) for a in t_[3] if a[0] not in ("fnconst",) and not (a[0] == "agg" and a[1] == "closure")]
+                rs = [r for r in rs if r != "ctx"]
+                if not rs:
+                    return "unknown"
+                return "fabricated" if "fabricated" in rs else "unknown" if "unknown" in rs else "ok"
+            return "unknown"
+        if k in ("field", "downcast", "deref", "ref", "cast"):
+            return rooted(t_[1] if k != "cast" else t_[2], root_bbs, depth + 1)
+        if k == "agg" and t_[1] == "adt":
+            if t_[3].endswith("PhantomData"):
+                return "ctx"
+            rs = [rooted(a, root_bbs, depth + 1) for a in t_[2]]
+            rs = [r for r in rs if r != "ctx"]
+            if not rs:
+                return "fabricated"
+            return "fabricated" if "fabricated" in rs else "unknown" if "unknown" in rs else "ok"
+        if k == "agg" and t_[1] == "tuple":
+            rs = [rooted(a, root_bbs, depth + 1) for a in t_[2]]
+            return "fabricated" if "fabricated" in rs or not rs else "unknown" if "unknown" in rs else "ok"
+        if k == "const":
+            return "fabricated"
+        if k == "param":
+            return "unknown"
+        return "unknown"
+
+    # D's document comes from F and nothing else
+    arg = v.origin(v.blocks[d]["term"]["args"][0])
+    verdicts = set(rooted(a, {f}) for a in v.alts(arg))
+    if "fabricated" in verdicts:
+        fs.append(fnd(rule, v, "deserr::deserialize does not receive exactly the document the framework extracted", d, fmt(canon(v, arg))))
+    elif verdicts != {"ok"}:
+        fs.append(und(rule, v, "where deserialize's document comes from was not read (undecided)", d, fmt(canon(v, arg))))
+    # successes wrap D's value; errors are F's or D's
+    for bb2, path, var, ops, st in agg_results(v):
+        if path == "std::result::Result" and var == "Ok" and ops:
+            vs = set(rooted(a, {d}) for a in v.alts(v.origin(st["rv"]["ops"][0])))
+            if "fabricated" in vs:
+                fs.append(fnd(rule, v, "success is produced by something other than wrapping deserr's value", bb2))
+            elif vs != {"ok"}:
+                fs.append(und(rule, v, "what a success wraps was not read (undecided)", bb2))
+        if path == "std::result::Result" and var == "Err" and ops:
+            vs = set(rooted(a, {f, d}) for a in v.alts(v.origin(st["rv"]["ops"][0])))
+            if "fabricated" in vs:
+                fs.append(fnd(rule, v, "an error is fabricated or altered by the extractor", bb2, fmt(ops[0])))
+            elif vs != {"ok"}:
+                fs.append(und(rule, v, "where an error comes from was not read (undecided)", bb2))
+    for x, bb, nm in unknown[:3]:
+        fs.append(und(rule, x, "call of %s is not part of the composition the rule reads (undecided)" % nm, bb))
+    return fs, ob
+
+
 def actix_rules(crate, res):
     # ---- AwebJson::from_request
     b = find(crate, "AwebJson<T, E> as actix_web::FromRequest>::from_request")
@@ -126,137 +245,114 @@ def actix_rules(crate, res):
                 fs.append(fnd("C20.AWEB", v, "the framework extractor does not receive the request and payload unchanged", fr[0]))
     res.add("C20.AWEB", 4, fs)
     # ---- poll
-    b = find(crate, "AwebJsonExtractFut<T, E> as futures::Future>::poll")
+    import inline
+    b = None
+    for x in crate.bodies:
+        if "AwebJsonExtractFut" in x.path and x.path.endswith("::poll") and x.path == x.root:
+            b = x
     fs = []
     ob = 8
     if b is None:
-        fs.append(Finding("C20.AWEB", "AwebJsonExtractFut::poll", "not found", ""))
+        fs.append(Finding("C20.AWEB", "AwebJsonExtractFut::poll", "not found (undecided)", "", undecided=True))
     else:
-        v = View(b)
-        f2, o2 = shape(v, {"actix_web::web::Json::into_inner", "deserialize", "actix_web::serde_json::AwebJson::new"}, "C20.AWEB")
+        v = View(inline.expand_local_helpers(crate, b))
+
+        def is_poll(view, bb):
+            return cname(view, bb) in ("futures::Future::poll", "std::future::Future::poll")
+        f2, o2 = composition(crate, v, "C20.AWEB", is_poll, "AwebJson", extra_ok=("actix_web::web::Json::into_inner",))
         fs += f2
         ob += o2
-        polls = [bb for bb in call_blocks(v, "futures::Future::poll") + call_blocks(v, "std::future::Future::poll")]
-        des = call_blocks(v, "deserialize")
-        news = call_blocks(v, "actix_web::serde_json::AwebJson::new")
-        if len(polls) != 1 or len(des) != 1 or len(news) != 1:
-            fs.append(fnd("C20.AWEB", v, "expected one inner poll, one deserialize and one AwebJson::new"))
-        else:
-            p, d, n = polls[0], des[0], news[0]
+        polls = [bb for bb, c in v.calls() if is_poll(v, bb)]
+        if len(polls) == 1:
+            p = polls[0]
             fut = strip_refs(canon(v, v.origin(v.blocks[p]["term"]["args"][0])))
-            if not term_mentions(fut, lambda x: x[0] == "field" and x[3] == "fut"):
-                fs.append(fnd("C20.AWEB", v, "what is polled is not the framework future stored in the extractor", p))
+            if not term_mentions(fut, lambda x: x[0] == "field" and strip_refs(x[1])[0] in ("param", "deref", "call", "field")):
+                fs.append(und("C20.AWEB", v, "what is polled was not read (undecided)", p))
             # Pending propagated
             k, sbb, info, cur = follow_local_use(v, p, v.blocks[p]["term"]["dest"]["l"])
             pend = v.variant_target(info, "Pending") if k == "switch" else None
+            if pend is None:
+                for sb in sorted(v.reach):
+                    i2 = v.switch_info(sb)
+                    if i2 and i2["kind"] == "discr" and (i2.get("adt") or "").endswith("task::Poll") and i2["place"] is not None and \
+                            mentions_call(canon(v, v.origin_place(i2["place"])), p):
+                        pend = v.variant_target(i2, "Pending")
             okp = False
             if pend is not None:
                 for bb2, path, var, ops, st in agg_results(v):
                     if path == "std::task::Poll" and var == "Pending" and st["place"]["l"] == 0 and bb2 in skeleton.dominated(v, pend):
                         okp = True
-            if not okp:
-                fs.append(fnd("C20.AWEB", v, "Pending of the framework future is not propagated as Pending"))
-            # deserialize(into_inner(Ok payload of Ready payload))
-            a = canon(v, v.origin(v.blocks[d]["term"]["args"][0]))
-            okd = a[0] == "call" and call_name(v, a) == "actix_web::web::Json::into_inner"
-            if okd:
-                inner = see_through(v, strip_refs(a[3][0]))
-                okd = inner[0] == "field" and inner[2] == "Ok" and mentions_call(see_through(v, inner[1]) if inner[1][0] == "multi" else inner[1], p)
-            if not okd:
-                fs.append(fnd("C20.AWEB", v, "deserr::deserialize does not receive exactly the document the framework extracted", d, fmt(a)))
-            ga = v.callee(d).gargs
-            if len(ga) >= 2 and isinstance(ga[1], int) and crate.types[ga[1]]["s"] != "serde_json::Value":
-                fs.append(fnd("C20.AWEB", v, "deserialize is not run on serde_json::Value", d))
-            # Ok => Ok(AwebJson::new(d))
-            a = canon(v, v.origin(v.blocks[n]["term"]["args"][0]))
-            if not (a[0] == "field" and a[2] == "Ok" and a[1][0] == "call" and a[1][1] == d):
-                fs.append(fnd("C20.AWEB", v, "the value wrapped is not the value deserr produced", n, fmt(a)))
-            oks = [x for x in agg_results(v) if x[1] == "std::result::Result" and x[2] == "Ok"]
-            if len(oks) != 1 or not (oks[0][3][0][0] == "call" and oks[0][3][0][1] == n):
-                fs.append(fnd("C20.AWEB", v, "success is produced by something other than wrapping deserr's value"))
-            # every Err carries either the framework's error or deserr's error, unchanged
-            for bb2, path, var, ops, st in agg_results(v):
-                if path == "std::result::Result" and var == "Err":
-                    t = ops[0]
-                    okE = (t[0] == "field" and t[2] == "Err" and (mentions_call(see_through(v, t[1]) if t[1][0] == "multi" else t[1], p) or (t[1][0] == "call" and t[1][1] == d)))
-                    if not okE:
-                        fs.append(fnd("C20.AWEB", v, "an error is fabricated or altered by the extractor", bb2, fmt(t)))
-            # Err(e)? : residual into from_residual
-            frs = call_blocks(v, "std::ops::FromResidual::from_residual")
-            if len(frs) != 1 or not mentions_call(canon(v, v.origin(v.blocks[frs[0]]["term"]["args"][0])), d):
-                fs.append(fnd("C20.AWEB", v, "deserr's error is not returned through the ResponseError conversion (`Err(e)?`)"))
+                if not okp:
+                    fs.append(fnd("C20.AWEB", v, "Pending of the framework future is not propagated as Pending"))
+            else:
+                fs.append(und("C20.AWEB", v, "how Pending is handled was not read (undecided)"))
     res.add("C20.AWEB", ob, fs)
     # ---- query parameters
     b = find(crate, "AwebQueryParameter::<T, E>::from_query")
     fs = []
     ob = 6
     if b is None:
-        fs.append(Finding("C20.AQUERY", "from_query", "not found", ""))
+        fs.append(Finding("C20.AQUERY", "from_query", "not found (undecided)", "", undecided=True))
     else:
-        v = View(b)
-        f2, o2 = shape(v, {"actix_web::web::Query::from_query", "deserialize"}, "C20.AQUERY")
+        v = View(inline.expand_local_helpers(crate, b))
+
+        def is_q(view, bb):
+            return cname(view, bb) == "actix_web::web::Query::from_query"
+        f2, o2 = composition(crate, v, "C20.AQUERY", is_q, "AwebQueryParameter")
         fs += f2
         ob += o2
-        q = call_blocks(v, "actix_web::web::Query::from_query")
-        d = call_blocks(v, "deserialize")
-        if len(q) != 1 or len(d) != 1:
-            fs.append(fnd("C20.AQUERY", v, "expected one Query::from_query and one deserialize"))
-        else:
+        q = [bb for bb, c in v.calls() if is_q(v, bb)]
+        if len(q) == 1:
             if "serde_json::Value" not in v.callee(q[0]).full:
                 fs.append(fnd("C20.AQUERY", v, "the query string is not decoded into serde_json::Value", q[0]))
             if strip_refs(canon(v, v.origin(v.blocks[q[0]]["term"]["args"][0]))) != ("param", 1):
                 fs.append(fnd("C20.AQUERY", v, "the query string is altered before it is decoded", q[0]))
-            a = see_through(v, canon(v, v.origin(v.blocks[d[0]]["term"]["args"][0])))
-            okd = a[0] == "field" and a[3] == "0" and mentions_call(see_through(v, a[1]), q[0])
-            if not okd:
-                fs.append(fnd("C20.AQUERY", v, "deserr::deserialize does not receive exactly the decoded query", d[0], fmt(a)))
-            aggs = agg_results(v)
-            oks = [x for x in aggs if x[1] == "std::result::Result" and x[2] == "Ok"]
-            wraps = [x for x in aggs if x[1].endswith("AwebQueryParameter")]
-            if len(oks) != 1 or len(wraps) != 1 or not (wraps[0][3][0][0] == "field" and wraps[0][3][0][2] == "Ok" and wraps[0][3][0][1][0] == "call" and wraps[0][3][0][1][1] == d[0]):
-                fs.append(fnd("C20.AQUERY", v, "success is not exactly the wrapped value deserr produced"))
-            for bb2, path, var, ops, st in aggs:
-                if path == "std::result::Result" and var == "Err":
-                    t = ops[0]
-                    if not (t[0] == "field" and t[2] == "Err" and t[1][0] == "call" and t[1][1] == d[0]):
-                        fs.append(fnd("C20.AQUERY", v, "an error is fabricated or altered by the extractor", bb2, fmt(t)))
-            frs = call_blocks(v, "std::ops::FromResidual::from_residual")
-            srcs = set()
-            for x in frs:
-                t = canon(v, v.origin(v.blocks[x]["term"]["args"][0]))
-                if mentions_call(t, q[0]):
-                    srcs.add("framework")
-                if mentions_call(t, d[0]):
-                    srcs.add("deserr")
-            if srcs != {"framework", "deserr"}:
-                fs.append(fnd("C20.AQUERY", v, "framework errors and deserr errors are not both passed on with `?` (%s)" % sorted(srcs)))
     res.add("C20.AQUERY", ob, fs)
     b = find(crate, "AwebQueryParameter<T, E> as actix_web::FromRequest>::from_request")
     fs = []
     if b is None:
-        fs.append(Finding("C20.AQUERY", "AwebQueryParameter::from_request", "not found", ""))
+        fs.append(Finding("C20.AQUERY", "AwebQueryParameter::from_request", "not found (undecided)", "", undecided=True))
     else:
-        v = View(b)
-        f2, o2 = shape(v, {"actix_web::HttpRequest::query_string", "actix_web::query_parameters::AwebQueryParameter::from_query", "std::result::Result::map", "std::result::Result::unwrap_or_else"}, "C20.AQUERY")
+        v = View(inline.expand_local_helpers(crate, b, keep=("actix_web::query_parameters::AwebQueryParameter::<T, E>::from_query",)))
+        READY = ("actix_utils::future::ok", "actix_utils::future::err", "std::future::ready", "actix_utils::future::ready", "futures::future::ready", "futures::future::ok", "futures::future::err")
+        f2, o2 = shape(v, {"actix_web::HttpRequest::query_string", "actix_web::query_parameters::AwebQueryParameter::from_query", "std::result::Result::map",
+                           "std::result::Result::unwrap_or_else", "std::result::Result::map_or_else"} | set(READY), "C20.AQUERY")
         fs += f2
         fq = call_blocks(v, "actix_web::query_parameters::AwebQueryParameter::from_query")
         if len(fq) != 1:
-            fs.append(fnd("C20.AQUERY", v, "from_query is not called exactly once"))
+            fs.append(und("C20.AQUERY", v, "from_query is not called exactly once: composition not read (undecided)"))
         else:
             a = canon(v, v.origin(v.blocks[fq[0]]["term"]["args"][0]))
             if not (a[0] == "call" and call_name(v, a) == "actix_web::HttpRequest::query_string" and strip_refs(a[3][0]) == ("param", 1)):
                 fs.append(fnd("C20.AQUERY", v, "from_query does not receive the request's own query string", fq[0], fmt(a)))
+            # what is returned: ready(Ok(v)) / ready(Err(e)) of from_query's own result, unchanged
             rets = [bb for bb in v.reach if v.blocks[bb]["term"]["k"] == "call" and v.blocks[bb]["term"]["dest"]["l"] == 0]
-            okr = False
+            okr = bool(rets)
+            undec = False
             for r in rets:
-                t = canon(v, v.origin_call(r))
-                if call_name(v, t) == "std::result::Result::unwrap_or_else" and t[3][0][0] == "call" and call_name(v, t[3][0]) == "std::result::Result::map" \
-                        and t[3][0][3][0][0] == "call" and t[3][0][3][0][1] == fq[0]:
-                    f_ok = t[3][0][3][1]
-                    f_err = t[3][1]
-                    okr = f_ok[0] == "fnconst" and f_ok[1].endswith("::ok") and f_err[0] == "fnconst" and f_err[1].endswith("::err")
+                tm = canon(v, v.origin_call(r))
+                nm = call_name(v, tm)
+                if nm == "std::result::Result::unwrap_or_else" and tm[3][0][0] == "call" and call_name(v, tm[3][0]) == "std::result::Result::map" \
+                        and tm[3][0][3][0][0] == "call" and tm[3][0][3][0][1] == fq[0]:
+                    f_ok = tm[3][0][3][1]
+                    f_err = tm[3][1]
+                    if not (f_ok[0] == "fnconst" and f_ok[1].endswith("::ok") and f_err[0] == "fnconst" and f_err[1].endswith("::err")):
+                        okr = False
+                elif nm in READY and tm[3]:
+                    want_var = "Ok" if nm.endswith("::ok") else "Err" if nm.endswith("::err") else None
+                    for alt in v.alts(tm[3][0]):
+                        alt = strip_refs(canon(v, alt))
+                        if alt[0] == "field" and alt[1][0] == "call" and alt[1][1] == fq[0] and (want_var is None or alt[2] == want_var):
+                            continue
+                        if alt[0] == "call" and alt[1] == fq[0] and want_var is None:
+                            continue
+                        okr = False
+                else:
+                    undec = True
             if not okr:
                 fs.append(fnd("C20.AQUERY", v, "the result of from_query is not returned as ready(Ok) / ready(Err) unchanged"))
+            elif undec:
+                fs.append(und("C20.AQUERY", v, "how the result of from_query is returned was not read (undecided)"))
     res.add("C20.AQUERY", 4, fs)
     # ---- ResponseError for JsonError
     fs = []
@@ -293,58 +389,36 @@ def actix_rules(crate, res):
 def axum_rules(crate, res):
     fs = []
     ob = 8
+    import inline
     b = find(crate, "AxumJson<T, E> as axum::extract::FromRequest<S>>::from_request::{closure#0}")
     outer = find(crate, "AxumJson<T, E> as axum::extract::FromRequest<S>>::from_request", kind="AssocFn")
     if b is None or outer is None:
-        fs.append(Finding("C20.AXUM", "AxumJson::from_request", "not found", ""))
+        fs.append(Finding("C20.AXUM", "AxumJson::from_request", "not found (undecided)", "", undecided=True))
     else:
-        v = View(b)
-        f2, o2 = shape(v, {"axum::extract::FromRequest::from_request", "deserialize"}, "C20.AXUM")
+        v = View(inline.expand_local_helpers(crate, b))
+
+        def is_await(view, bb):
+            return cname(view, bb) == "std::future::Future::poll"
+        f2, o2 = composition(crate, v, "C20.AXUM", is_await, "AxumJson", extra_ok=("axum::extract::FromRequest::from_request",))
         fs += f2
         ob += o2
         fr = call_blocks(v, "axum::extract::FromRequest::from_request")
-        d = call_blocks(v, "deserialize")
-        if len(fr) != 1 or len(d) != 1 or "axum::Json<serde_json::Value>" not in v.callee(fr[0]).full:
-            fs.append(fnd("C20.AXUM", v, "expected one Json<serde_json::Value>::from_request and one deserialize"))
+        if len(fr) != 1 or "axum::Json<serde_json::Value>" not in v.callee(fr[0]).full:
+            fs.append(fnd("C20.AXUM", v, "the request is not extracted with axum's own Json<serde_json::Value>"))
         else:
             a = [strip_refs(canon(v, v.origin(x))) for x in v.blocks[fr[0]]["term"]["args"]]
             if not (a[0][0] == "field" and a[0][1] == ("param", 1) and a[0][3] == "req" and a[1][0] == "field" and a[1][1] == ("param", 1) and a[1][3] == "state"):
                 fs.append(fnd("C20.AXUM", v, "the framework extractor does not receive the request and state unchanged", fr[0], fmt(a[0])))
             polls = call_blocks(v, "std::future::Future::poll")
-            if len(polls) != 1 or not mentions_call(canon(v, v.origin(v.blocks[polls[0]]["term"]["args"][0])), fr[0]):
+            if len(polls) == 1 and not mentions_call(canon(v, v.origin(v.blocks[polls[0]]["term"]["args"][0])), fr[0]):
                 fs.append(fnd("C20.AXUM", v, "what is awaited is not the framework extractor's future"))
-            else:
-                p = polls[0]
-                arg = see_through(v, canon(v, v.origin(v.blocks[d[0]]["term"]["args"][0])))
-                # value = (Continue payload of branch(Ready payload of poll)).0
-                okd = arg[0] == "field" and arg[3] == "0" and mentions_call(see_through(v, arg[1]), p)
-                if okd:
-                    inner = see_through(v, arg[1])
-                    okd = term_mentions(inner, lambda x: x[0] == "field" and x[2] == "Continue") and term_mentions(inner, lambda x: x[0] == "field" and x[2] == "Ready")
-                if not okd:
-                    fs.append(fnd("C20.AXUM", v, "deserr::deserialize does not receive exactly the document the framework extracted", d[0], fmt(arg)))
-                aggs = agg_results(v)
-                oks = [x for x in aggs if x[1] == "std::result::Result" and x[2] == "Ok"]
-                wraps = [x for x in aggs if x[1].endswith("AxumJson")]
-                okw = len(oks) == 1 and len(wraps) == 1
-                if okw:
-                    t = see_through(v, wraps[0][3][0])
-                    okw = t[0] == "field" and t[2] == "Continue" and mentions_call(t[1], d[0])
-                if not okw:
-                    fs.append(fnd("C20.AXUM", v, "success is not exactly the wrapped value deserr produced"))
-                for bb2, path, var, ops, st in aggs:
-                    if path == "std::result::Result" and var == "Err":
-                        fs.append(fnd("C20.AXUM", v, "an error is fabricated by the extractor", bb2))
-                frs = call_blocks(v, "std::ops::FromResidual::from_residual")
-                srcs = set()
-                for x in frs:
-                    t = canon(v, v.origin(v.blocks[x]["term"]["args"][0]))
-                    if mentions_call(t, d[0]):
-                        srcs.add("deserr")
-                    elif mentions_call(t, p):
-                        srcs.add("framework")
-                if srcs != {"framework", "deserr"}:
-                    fs.append(fnd("C20.AXUM", v, "framework rejections and deserr errors are not both passed on with `?` (%s)" % sorted(srcs)))
+        # a success wraps deserr's value in AxumJson
+        for bb2, path, var, ops, st in agg_results(v):
+            if path.endswith("AxumJson") and ops:
+                d_ = call_blocks(v, "deserialize")
+                vs = v.alts(v.origin(st["rv"]["ops"][0]))
+                if d_ and not all(term_mentions(canon(v, a_), lambda y: y[0] == "call" and y[1] == d_[0]) for a_ in vs):
+                    fs.append(fnd("C20.AXUM", v, "success is not exactly the wrapped value deserr produced", bb2))
     res.add("C20.AXUM", ob, fs)
     # ---- From impls and IntoResponse of the rejection
     fs = []
